@@ -107,6 +107,11 @@ func (p proxy) SubscribeID(action uint32) (func(), chan []byte, error) {
 		obj := proxyObject{p}
 		_, err := obj.RegisterEvent(p.object, action, uint64(handler))
 		if err != nil {
+			// nothing was registered: the next subscriber is
+			// the first one again.
+			p.client.State(fmt.Sprintf("%d.%d.%d.handler", p.service, p.object, action), -handler)
+			p.client.State(fmt.Sprintf("%d.%d.%d", p.service, p.object, action), -1)
+			cancel()
 			return nil, nil, err
 		}
 	}
